@@ -149,6 +149,104 @@ def stack_alphabet(g, cap: int = 8) -> list[int]:
     return [i * 100000 + i for i in range(n)]
 
 
+class _OutOfPrefix(BaseException):
+    """The scripted draw prefix of a stack-machine run is used up (BaseException: the mapping's own
+    `except IndexError` / the library's `except Exception` must not swallow it)."""
+
+    def __init__(self, lo, hi):
+        self.lo, self.hi = lo, hi
+
+
+def stack_guided_genomes(g, max_states: int = 120, max_len: int = 14, failures_limit: int = 100, want: int = 60):
+    """Explicit-state search over the stack machine of the stack-based representation: breadth-first over draw
+    prefixes of the real `create_tree_using_stacks`, states = contents of the type stacks (read from the frame in
+    which the run stopped) plus whether a failure has happened; every prefix after which the start symbol's stack
+    is filled is turned into a genome for the real ListWrapper (which reads dna[1], dna[2], .., dna[0]) and is
+    kept only if the real representation maps it to the same program (the construction validates itself).
+    Returns a list of (genome, program term)."""
+    import geneticengine.representations.stackgggp as S
+    from geneticengine.random.sources import RandomSource
+
+    class Prefix(RandomSource):
+        def __init__(self, draws):
+            self.draws, self.i, self.ranges = list(draws), 0, []
+
+        def randint(self, lo, hi):  # noqa: A002
+            if self.i >= len(self.draws):
+                raise _OutOfPrefix(lo, hi)
+            v = self.draws[self.i]
+            self.i += 1
+            self.ranges.append((lo, hi))
+            return lo + (v % (hi - lo + 1))
+
+        def random_float(self, lo, hi):
+            return float(lo)
+
+    def domain(lo, hi):
+        n = hi - lo + 1
+        if n % 100000 == 0 and n >= 100000:  # a weighted choice between n / 1e5 equally weighted options
+            return [i * 100000 for i in range(n // 100000)]
+        if n <= 12:
+            return list(range(n))
+        return [0, 1, n - 1]
+
+    def canon(stacks, failures):
+        items = []
+        for k, v in stacks.items():
+            if v:
+                items.append((getattr(k, "__name__", None) or repr(k), tuple(repr(x) for x in v)))
+        return (tuple(sorted(items)), min(failures, 1))
+
+    seen = set()
+    frontier = [()]
+    complete = []
+    while frontier and len(seen) < max_states and len(complete) < want:
+        nxt = []
+        for prefix in frontier:
+            src = Prefix(prefix)
+            try:
+                prog = S.create_tree_using_stacks(g, src, failures_limit=failures_limit)
+                if src.i == len(prefix):  # every draw of the prefix was needed
+                    complete.append((prefix, list(src.ranges), prog))
+                continue
+            except _OutOfPrefix as stop:
+                tb = stop.__traceback__
+                loc = None
+                while tb is not None:
+                    if tb.tb_frame.f_code.co_name == "create_tree_using_stacks":
+                        loc = tb.tb_frame.f_locals
+                    tb = tb.tb_next
+                if loc is None or "stacks" not in loc:
+                    continue
+                # (a draw requested in the middle of an operation belongs to the state: same stacks, other continuation)
+                pending = (stop.lo, stop.hi, repr(loc.get("target_type")) if stop.hi - stop.lo + 1 < 100000 else "")
+                k = canon(loc["stacks"], loc.get("failures", 0)) + (pending,)
+                if k in seen and prefix:
+                    continue
+                seen.add(k)
+                if len(prefix) < max_len:
+                    for v in domain(stop.lo, stop.hi):
+                        nxt.append(prefix + (v,))
+            except Exception:  # noqa -- the machine gave up on this prefix
+                continue
+        frontier = nxt
+    out = []
+    for prefix, ranges, prog in complete:
+        if len(prefix) < 2:
+            continue
+        # genes one full range above the drawn value: same residue, but sensitive to any change of the range they are
+        # reduced by (ListWrapper advances its index before reading, hence the rotation)
+        wrapped = [v + (hi - lo + 1) for v, (lo, hi) in zip(prefix, ranges)]
+        genome = [wrapped[-1]] + wrapped[:-1]
+        try:
+            back = S.StackBasedGGGPRepresentation(g, gene_length=len(genome)).genotype_to_phenotype(S.Genotype(list(genome)))
+        except BaseException:  # noqa
+            continue
+        if R.term(back) == R.term(prog):
+            out.append((genome, R.term(prog)))
+    return out
+
+
 def _map(ctx: Ctx) -> Iterator[Event]:
     """All genotypes over the gene alphabet, mapped with genotype_to_phenotype; draws the
     mapping takes from the representation's shared source are explored by E1 as well."""
@@ -178,7 +276,11 @@ def _map(ctx: Ctx) -> Iterator[Event]:
         # the stack mapping needs one gene per node and per choice: use the longest genome the size of the
         # alphabet allows (|A|^L genotypes)
         L = max(L, 5 if len(alphabet) <= 4 else (4 if len(alphabet) <= 6 else 3))
-    for dna in gene_lists(L, alphabet):
+    lists = gene_lists(L, alphabet)
+    if rep_kind == "stack":
+        # plus the genomes found by explicit-state search of the stack machine (they complete a program)
+        lists = itertools.chain(lists, (tuple(gn) for gn, _ in stack_guided_genomes(ctx.g)))
+    for dna in lists:
         dna = list(dna)
         if rep_kind == "ge":
             from geneticengine.representations.grammatical_evolution.ge import Genotype
